@@ -300,6 +300,24 @@ func (s *Session) finish(commit bool) {
 	db.cond.Broadcast()
 }
 
+// abortKeepBlock: the transaction is over for everybody else (undone, marked aborted, locks released) while the session
+// stays in the failed transaction block until it issues ROLLBACK/COMMIT.
+func (s *Session) abortKeepBlock() {
+	db, tx := s.db, s.tx
+	for i := len(tx.undo) - 1; i >= 0; i-- {
+		tx.undo[i]()
+	}
+	tx.undo = nil
+	tx.failed = true
+	db.tx[tx.id].done = true
+	for k, l := range db.advisory {
+		if l.holder == s && l.xact {
+			delete(db.advisory, k)
+		}
+	}
+	db.cond.Broadcast()
+}
+
 // waitFor blocks until transaction xid has finished. db.mu is held on entry and on return.
 func (s *Session) waitFor(xid uint64) {
 	db := s.db
@@ -480,8 +498,15 @@ func (s *Session) execOne(st Stmt, sql string) (res *Result, err error) {
 			if s.tx != nil {
 				if implicit {
 					s.finish(false)
+				} else if len(s.tx.savepoints) == 0 {
+					// An error inside a transaction block aborts the transaction at once (PostgreSQL: AbortCurrentTransaction ->
+					// AbortTransaction in state TBLOCK_INPROGRESS): all its changes are undone and ALL its locks are released now
+					// (row locks, in-flight index entries, transaction-scoped advisory locks; Explicit Locking 13.3: locks are held
+					// "until the end of the transaction", and the abort is that end), waiters wake up; the session then only accepts
+					// ROLLBACK/COMMIT (25P02), which merely leaves the block.
+					s.abortKeepBlock()
 				} else {
-					// statement-level rollback, then the transaction is marked failed
+					// inside a savepoint only the subtransaction is aborted: statement-level rollback, failed until ROLLBACK TO
 					for i := len(s.tx.undo) - 1; i >= undoMark; i-- {
 						s.tx.undo[i]()
 					}
